@@ -113,10 +113,10 @@ def one_history(res, rng, files, api):
             target[1][rng.randrange(1, 50)] = 'written-between-parses'
             res.count('tables_dirtied_between_parses')
         if api == 'top':
-            events, exc = drive(lambda: top.kevents(io.BytesIO(f['data'])))
+            events, exc = drive(lambda: top.kevents(wire.stream(f['data'])))
             tables = (top.threads_pids, top.pids_names)
         else:
-            events, exc = drive(lambda: (e for e in KdBufParser(tp, pn).parse(io.BytesIO(f['data']))
+            events, exc = drive(lambda: (e for e in KdBufParser(tp, pn).parse(wire.stream(f['data']))
                                          if hasattr(e, 'debugid')))
             tables = (tp, pn)
         if f['kind'] == 'v2':
